@@ -62,7 +62,7 @@ def write_switch(sw):
 def ensure_switch(run):
     sw, err = scan_reuse()
     if err:
-        run.add_corr_break("G: " + err)
+        run.add_corr_break("G: " + err, shape=True)
         sw = (True, True)      # the model keeps the shape it was proved for; the harness decides
     write_switch(sw)
     return sw
